@@ -285,6 +285,6 @@ EXPLANATION = ("C12 (secret key hygiene): decides that every effect of append_ba
                "effect-free (R1); that make_read_only clears both in-memory copies before a ?-checked flush with clear_traces = true and returns Ok(true) only after it (R2); "
                "that a trace-clearing flush rewrites both header slots, each padded to the whole 4096-byte slot with zeros, truncating the log between the two writes so that a crash inside it recovers (R3); that SigningKey bytes are exported by exactly "
                "one function, used only inside the oplog header encoder, itself reached only through insert_header (R4); that open together with a key pair is rejected before "
-               "storage is touched and opening passes no key (R5); that the opened identity and writability come from the stored header (R6). R7: the header-slot fallback that recovers a crash during make_read_only remembers header bits consistent with the slot it uses (shared with C07.R5).")
+               "storage is touched, that nothing takes / replaces / assigns options.key_pair on a way to that guard, and opening passes no key (R5); that the opened identity and writability come from the stored header (R6). R7: the header-slot fallback that recovers a crash during make_read_only remembers header bits consistent with the slot it uses (shared with C07.R5).")
 NOT_DECIDED = "that no file contains the key bytes (a byte search over storage); crash outcomes inside make_read_only; that stale entries hold no key (they never contain key material by R4)."
 ASSUMPTIONS = ["ed25519-dalek's Debug/Display impls do not print the secret"]
